@@ -3,7 +3,7 @@
    The signature table is a JSON array of [public key text, server, key id] triples for which
    VerifyJSON succeeds on the invite's signed object (computed by the harness with real keys);
    it instantiates the sig_ok oracle of Auth/Abs.v. *)
-From Verif Require Import Lib.Bytes Json.Ast Json.Parse Auth.Types Auth.Versions Auth.Abs Auth.Decide Auth.Model Auth.AllowedSpec Auth.Departures Auth.SpecRead.
+From Verif Require Import Lib.Bytes Json.Ast Json.Parse Auth.Types Auth.Versions Auth.Abs Auth.Decide Auth.Model Auth.AllowedSpec Auth.Departures Auth.SpecRead Auth.Ids Auth.AbsQuerier.
 Open Scope N_scope.
 
 Definition sig_table (j : json) : list (bytes * bytes * bytes) :=
@@ -160,7 +160,68 @@ Definition prop_literal (args : list bytes) : bytes :=
        else if rules then bs "FAIL the rules accept, the library answered " ++ impl
        else bs "FAIL the rules reject, the library answered " ++ impl).
 
+(* ---------- pseudo-ID rooms: the UserIDForSender callback resolves sender IDs through a table ----------
+   the signature argument is an object whose member users maps sender IDs to user IDs; a sender ID
+   that is not listed makes the callback fail *)
+Definition user_table (j : json) : list (bytes * bytes) :=
+  match j with
+  | JObj m => match assoc_first (bs "users") m with
+              | Some (JObj us) => flat_map (fun kv => match snd kv with JStr u => [(fst kv, u)] | _ => [] end) us
+              | _ => []
+              end
+  | _ => []
+  end.
+
+Definition table_querier (tbl : list (bytes * bytes)) (sender : bytes) : option bytes :=
+  match assoc_first sender tbl with
+  | Some uid => user_domain uid
+  | None => None
+  end.
+
+Definition with_pseudo {A} (args : list bytes)
+           (k : (bytes -> option bytes) -> (bytes -> bytes -> bytes -> bool) -> bytes -> json -> list json -> A)
+           (bad : A) : A :=
+  match args with
+  | ver :: sigs :: ev :: auths =>
+      match parse_json sigs, parse_json ev, parse_all auths with
+      | Some s, Some e, Some al =>
+          k (table_querier (user_table s)) (table_oracle (fst (sig_tables s))) ver e al
+      | _, _, _ => bad
+      end
+  | _ => bad
+  end.
+
+Definition run_allowed_pseudo (args : list bytes) : bytes :=
+  with_pseudo args
+    (fun q so ver e al =>
+       verdict_bytes (match flags_of_version ver with
+                      | Some f => Some (decide_model (abs_q q so f e al))
+                      | None => None
+                      end))
+    (bs "badargs").
+
+Definition prop_allowed_pseudo (args : list bytes) : bytes :=
+  match split_last_arg args with
+  | None => bs "badargs"
+  | Some (args', impl) =>
+      with_pseudo args'
+        (fun q so ver e al =>
+           match spec_flags_of ver, spec_rules_of ver with
+           | Some sf, Some sv =>
+               let a := abs_q q so sf e al in
+               let want := decide_spec sv a in
+               let got := bytes_eqb impl (bs "ok") in
+               if negb (ai_provider_ok a) then bs "ok"
+               else if Bool.eqb want got then bs "ok"
+               else if want then bs "FAIL the rules accept, the library answered " ++ impl
+               else bs "FAIL the rules reject, the library answered " ++ impl
+           | _, _ => bs "FAIL unknown version"
+           end)
+        (bs "badargs")
+  end.
+
 Definition ops_C07 : list (bytes * (list bytes -> bytes)) :=
   [ (bs "C07.allowed", run_allowed); (bs "C07.allowed_nilq", run_allowed_nilq);
     (bs "C07.prop.allowed", prop_allowed); (bs "C07.prop.literal", prop_literal);
-    (bs "C07.literal_report", run_literal_report) ].
+    (bs "C07.literal_report", run_literal_report);
+    (bs "C07.allowed_pseudo", run_allowed_pseudo); (bs "C07.prop.allowed_pseudo", prop_allowed_pseudo) ].
